@@ -884,6 +884,67 @@ class WhenAny(WhenAll):
             self.done(*self.first)
 
 
+class WhenAllRange(WhenAll):
+    """when_all_range(std::vector<Sender>) (undocumented; written from the header and from when_all's documentation):
+    children are connected in index order, an empty range completes inline with an empty vector, the first child
+    error/done requests stop on the rest and decides the result once all children have completed, otherwise the
+    result is the vector of values in index order.  Unlike when_all the implementation does not turn a result into
+    done when the receiver's token was stopped; nothing documents either behaviour, so a scenario in which that
+    rule would decide the outcome is flagged and not judged."""
+
+    def connect(self, env):
+        self.env = env
+        self.src = Tok()
+        cenv = env.with_(tok=self.src)
+        for k in self.kids:
+            k.connect(cenv)
+
+    def start(self):
+        if self.n == 0:
+            self.done("v", [("vec", [])])
+            return
+        super().start()
+
+    def child_done(self, slot, ch, pack):
+        if ch == "v":
+            self.vals[slot] = pack[0]
+            self.element_complete()
+        else:
+            super().child_done(slot, ch, pack)
+
+    def element_complete(self):
+        self.ref -= 1
+        if self.ref == 0:
+            self.env.tok.unregister(self.h)
+            if self.done_or_error:
+                if self.error is not None:
+                    self.done("e", self.error)
+                else:
+                    self.done("d", None)
+            else:
+                if self.env.tok.requested:
+                    self.sim.flags.add("unjudged-outcome")
+                self.done("v", [("vec", list(self.vals))])
+
+
+class VariantSender(Node):
+    """variant_sender<A, B>: behaves as the alternative it holds"""
+
+    def __init__(self, sim, spec, parent, slot):
+        super().__init__(sim, spec, parent, slot)
+        self.k = self.kid(spec["alts"][spec["active"]], 0)
+
+    def connect(self, env):
+        self.env = env
+        self.k.connect(env)
+
+    def start(self):
+        self.k.start()
+
+    def child_done(self, slot, ch, pack):
+        self.done(ch, pack)
+
+
 class StopWhen(Node):
     def __init__(self, sim, spec, parent, slot):
         super().__init__(sim, spec, parent, slot)
@@ -996,6 +1057,7 @@ CLASSES = {
     "any_sender": AnySender,
     "lvw_stop_source": LVWStopSource, "lvw_stop_token": LVWStopToken, "let_value_with": LetValueWith,
     "when_all": WhenAll, "when_any": WhenAny, "stop_when": StopWhen,
+    "when_all_range": WhenAllRange, "variant_sender": VariantSender,
     "retry_when": RetryWhen, "repeat_effect_until": RepeatEffectUntil,
 }
 
